@@ -6,7 +6,7 @@ export GOFLAGS=-mod=mod GOPROXY=off
 mkdir -p .build
 (cd extract && go build -o ../.build/extract .)
 ./.build/extract -repo "${VERIF_REPO:-/repo}" -out lean/ImmuModel/Gen
-cp "${VERIF_REPO:-/repo}/go.sum" harness/go.sum
+python3 harness/genmod.py "${VERIF_REPO:-/repo}"
 (cd harness && go build -tags verif -o ../.build/vh ./cmd/vh)
 (cd lean && lake build ImmuModel driver)
 echo setup-ok
